@@ -35,10 +35,10 @@ import (
 type c01Inl struct {
 	fset     *token.FileSet
 	file     *ast.File
-	recvType string                       // base type name of the host's receiver ("" for plain functions)
-	recvName string                       // name of the host's receiver variable
+	recvType string                        // base type name of the host's receiver ("" for plain functions)
+	recvName string                        // name of the host's receiver variable
 	known    func(call *ast.CallExpr) bool // calls the translator has an entry for: never inlined
-	names    map[string]bool              // identifiers in use in the host function
+	names    map[string]bool               // identifiers in use in the host function
 	n        int
 	budget   int
 }
